@@ -616,6 +616,27 @@ func SymState(cfg Cfg) *State {
 // Seed commits the state into a fresh database through real insert operations.
 func Seed(s *State) database.Database {
 	db := NewDB()
+	SeedInto(db, s)
+	return db
+}
+
+// SeedOps returns the insert operations that create the state.
+func SeedOps(s *State) []ovsdb.Operation {
+	var ops []ovsdb.Operation
+	for _, c := range s.Children {
+		ops = append(ops, c.insertOp())
+	}
+	for _, r := range s.Roots {
+		ops = append(ops, r.insertOp())
+	}
+	for _, l := range s.Lims {
+		ops = append(ops, l.insertOp())
+	}
+	return ops
+}
+
+// SeedInto commits the state into db.
+func SeedInto(db database.Database, s *State) {
 	var ops []ovsdb.Operation
 	for _, c := range s.Children {
 		ops = append(ops, c.insertOp())
@@ -629,7 +650,6 @@ func Seed(s *State) database.Database {
 	res := Run(db, ops...)
 	rt.Assert(!Failed(res), "C04: a consistent set of rows is accepted")
 	rt.Assert(s.Matches(db), "C04: the seeded database holds the inserted rows")
-	return db
 }
 
 // SymOp picks one reference-changing operation, applies it to the reference state and returns it in wire form.
